@@ -357,6 +357,8 @@ func worldC04b(w *World) {
 	listedBy := map[string][]int{} // request ID -> pollers that were told about it
 	served := map[string]string{}  // request ID -> token
 	var wg sync.WaitGroup
+	var handlers sync.WaitGroup
+	slowBackend := []time.Duration{0, 0, 12 * time.Second, 25 * time.Second}[t.Choice(4, "slowbackend")]
 	stop := false
 	aborts := 0
 	for p := 0; p < nPollers; p++ {
@@ -430,35 +432,50 @@ func worldC04b(w *World) {
 					listedBy[id] = append(listedBy[id], p)
 				}
 				mu.Unlock()
-				// act as the agent for these IDs so that the clients complete
+				// act as the agent for these IDs so that the clients complete (a slow
+				// backend is played by answering some of them only after a long while,
+				// on another goroutine, so that this poller goes on polling meanwhile)
 				for _, id := range ids {
-					greq, _ := http.NewRequest("GET", "http://proxy:80/agent/request", nil)
-					greq.Header.Set("X-Inverting-Proxy-Backend-ID", fmt.Sprintf("b%d", p))
-					greq.Header.Set("X-Inverting-Proxy-Request-ID", id)
-					gresp, err := cl.Do(greq)
-					if err != nil {
-						continue
+					id := id
+					lat := time.Duration(0)
+					if slowBackend > 0 && len(id) > 0 && id[len(id)-1]%3 == 0 {
+						lat = slowBackend
+						w.Probe("request_outstanding_for_a_long_time")
 					}
-					raw, _ := io.ReadAll(gresp.Body)
-					gresp.Body.Close()
-					tok := ""
-					if i := bytes.Index(raw, []byte("X-Token: ")); i >= 0 {
-						rest := raw[i+9:]
-						if j := bytes.IndexByte(rest, '\r'); j >= 0 {
-							tok = string(rest[:j])
+					handlers.Add(1)
+					go func() {
+						defer handlers.Done()
+						greq, _ := http.NewRequest("GET", "http://proxy:80/agent/request", nil)
+						greq.Header.Set("X-Inverting-Proxy-Backend-ID", fmt.Sprintf("b%d", p))
+						greq.Header.Set("X-Inverting-Proxy-Request-ID", id)
+						gresp, err := cl.Do(greq)
+						if err != nil {
+							return
 						}
-					}
-					mu.Lock()
-					served[id] = tok
-					mu.Unlock()
-					body := "HTTP/1.1 200 OK\r\nX-Echo-Token: " + tok + "\r\nContent-Length: 2\r\n\r\nok"
-					preq, _ := http.NewRequest("POST", "http://proxy:80/agent/response", strings.NewReader(body))
-					preq.Header.Set("X-Inverting-Proxy-Backend-ID", fmt.Sprintf("b%d", p))
-					preq.Header.Set("X-Inverting-Proxy-Request-ID", id)
-					if presp, err := cl.Do(preq); err == nil {
-						io.Copy(io.Discard, presp.Body)
-						presp.Body.Close()
-					}
+						raw, _ := io.ReadAll(gresp.Body)
+						gresp.Body.Close()
+						tok := ""
+						if i := bytes.Index(raw, []byte("X-Token: ")); i >= 0 {
+							rest := raw[i+9:]
+							if j := bytes.IndexByte(rest, '\r'); j >= 0 {
+								tok = string(rest[:j])
+							}
+						}
+						mu.Lock()
+						served[id] = tok
+						mu.Unlock()
+						if lat > 0 {
+							time.Sleep(lat)
+						}
+						body := "HTTP/1.1 200 OK\r\nX-Echo-Token: " + tok + "\r\nContent-Length: 2\r\n\r\nok"
+						preq, _ := http.NewRequest("POST", "http://proxy:80/agent/response", strings.NewReader(body))
+						preq.Header.Set("X-Inverting-Proxy-Backend-ID", fmt.Sprintf("b%d", p))
+						preq.Header.Set("X-Inverting-Proxy-Request-ID", id)
+						if presp, err := cl.Do(preq); err == nil {
+							io.Copy(io.Discard, presp.Body)
+							presp.Body.Close()
+						}
+					}()
 				}
 			}
 		})
